@@ -95,10 +95,25 @@ def d2(cx: Cx, ob: Ob) -> None:
                 desc = is_const(rev, True)
             elif body == ("neg", ("item", parts, x)):
                 desc = not is_const(rev, True)
+            elif op(body) == "or" and len(body[1]) == 2 and body[1][0] == ("item", parts, x):
+                # weight-or-default: a weight of 0 is falsy
+                desc = is_const(rev, True)
+                ob.violate(
+                    ph.qualname,
+                    ph.where,
+                    f"parse_header sorts by `{show(body)[:50]}`: an explicit q=0 (\"not acceptable\") is falsy and is replaced by the default weight, so the type the client ranked lowest is treated as most preferred",
+                    witness="'application/json;q=0, text/csv;q=0.5' negotiates JSON",
+                    detail="zero-weight-as-default",
+                )
+            elif op(body) == "ifexp" and body[2] == ("item", parts, x) and op(body[1]) == "cmp" and body[1][1] == "is not" and body[1][2] == ("item", parts, x) and is_const(body[1][3], None):
+                desc = is_const(rev, True)  # weight if given, else the default
+            elif op(body) == "ifexp" and body[3] == ("item", parts, x) and op(body[1]) == "cmp" and body[1][1] == "is" and body[1][2] == ("item", parts, x) and is_const(body[1][3], None):
+                desc = is_const(rev, True)
         if desc is None:
             ob.undecide(f"sort key `{show(key)[:50] if key else None}` of parse_header not recognised")
         elif not desc:
             ob.violate(ph.qualname, ph.where, "parse_header orders media types by ASCENDING q: the client's least preferred supported type wins", witness="'text/csv;q=0.1,application/json;q=0.9' negotiates CSV", detail="ascending")
+    s_ph_returns = list(s.returns())
     hp = cx.fn(f"{U}._handle_part", ob.id)
     hs = cx.summary(hp, ob.id)
     defaults = set()
@@ -109,6 +124,17 @@ def d2(cx: Cx, ob: Ob) -> None:
                 defaults.add(q[1])
             elif op(q) == "call" and q[1] == ("builtin", "next") and len(q[2]) == 2 and is_const(q[2][1]) and isinstance(q[2][1][1], (int, float)):
                 defaults.add(q[2][1][1])  # next(<q values>, default)
+            elif op(q) == "call" and q[1] == ("builtin", "next") and len(q[2]) == 2 and is_const(q[2][1], None):
+                # the default is applied by the caller (parse_header); its value is read from there
+                for t2, _ in s_ph_returns:
+                    for x in subterms(t2):
+                        if op(x) in ("const", "gconst"):
+                            try:
+                                val = x[1] if op(x) == "const" else cx.model.const_value(cx.model.modules[x[1]], x[2])
+                            except Exception:  # noqa: BLE001
+                                val = None
+                            if isinstance(val, float) or (isinstance(val, int) and not isinstance(val, bool) and val == 1):
+                                defaults.add(val)
             elif op(q) == "phi":
                 # a local default overwritten inside a loop: `quality = 1.0` ... `for ...: quality = float(..)`
                 for ev, _ in hs.walk():
@@ -484,6 +510,11 @@ def d5(cx: Cx, ob: Ob) -> None:
             return env[0]
         if t == ON:
             return env[1]
+        if o_ == "cmp" and t[1] in ("==", "!=", "is", "is not") and {t[2], t[3]} == {S, O}:
+            # the two sides compared with each other: None == None holds, bound vs unbound differs,
+            # two bound terms are equal or not (third component of the world)
+            same = True if (env[0] and env[1]) else False if (env[0] or env[1]) else env[2]
+            return same if t[1] in ("==", "is") else not same
         if o_ == "cmp" and t[1] == "is not" and is_const(t[3], None) and t[2] in (S, O):
             return not (env[0] if t[2] == S else env[1])
         if o_ == "not":
@@ -505,8 +536,9 @@ def d5(cx: Cx, ob: Ob) -> None:
         out = set()
         for sn in (False, True):
             for on in (False, True):
-                if all(ev_(g, (sn, on)) == pol for g, pol in gs):
-                    out.add((sn, on))
+                for eq in ((False, True) if not sn and not on else (False,)):
+                    if all(ev_(g, (sn, on, eq)) == pol for g, pol in gs):
+                        out.add((sn, on) if not eq else (sn, on, "same term"))
         return out
 
     try:
@@ -515,7 +547,7 @@ def d5(cx: Cx, ob: Ob) -> None:
         ob.undecide(f"triples: guard `{e}` on the pattern sides not recognised")
         ra = rb = None
     if ra is not None:
-        if ra != {(o_, s_) for s_, o_ in rb}:
+        if ra != {(x[1], x[0], *x[2:]) for x in rb}:
             ob.violate(fn.qualname, where(fn, branches[1][0].line), "the two branches are guarded asymmetrically", witness=f"(subject unbound, object unbound) combinations: {sorted(ra)} vs {sorted(rb)}", detail="asymmetric-guard")
         for (yy, gg), reg in ((a, ra), (b, rb)):
             if reg - {(True, False), (False, True)}:
